@@ -123,9 +123,13 @@ def main():
         pick = rng.sample(all_sites, min(a.per_file, len(all_sites)))
         for site in pick:
             t0 = time.time()
-            mutated = ast.unparse(apply(copy.deepcopy(tree), site))
+            mtree = apply(copy.deepcopy(tree), site)
+            mutated = ast.unparse(mtree)
             if mutated == ast.unparse(tree):
                 continue
+            # the changed line(s), as text
+            a_, b_ = ast.unparse(tree).splitlines(), mutated.splitlines()
+            diff = [(x, y) for x, y in zip(a_, b_) if x != y][:2]
             shutil.rmtree(work, ignore_errors=True)
             shutil.copytree(REPO, work, ignore=shutil.ignore_patterns(
                 ".git", "__pycache__", "*.pyc"))
@@ -136,6 +140,8 @@ def main():
             except IndexError:
                 old_line = ""
             rec["source_line"] = old_line[:120]
+            rec["change"] = [[x.strip()[:100], y.strip()[:100]]
+                             for x, y in diff]
             b = subprocess.run(["python3", os.path.join(VERIF, "tools",
                                                         "baseline_check.py"),
                                 work], capture_output=True, text=True)
